@@ -537,7 +537,16 @@ func rulesC14(p *Prog, r *Report) {
 // result only under found && IsPriceActive; (b) the error of a price/ratio helper is not
 // discarded.
 func priceDiscipline(p *Prog, r *Report, rule string, modules map[string]bool, floor int) {
-	r.Rule(rule, "price discipline: Twa read only under found && IsPriceActive; price/ratio errors not discarded", floor)
+	priceDisciplineX(p, r, rule, modules, floor, false)
+}
+
+// priceDisciplineX with readsOnly: part (a) alone (C17: every consumer of the stored price).
+func priceDisciplineX(p *Prog, r *Report, rule string, modules map[string]bool, floor int, readsOnly bool) {
+	if readsOnly {
+		r.Rule(rule, "consumers: Twa / PriceValue of a GetTwa result are read only under found && IsPriceActive of that very record", floor)
+	} else {
+		r.Rule(rule, "price discipline: Twa read only under found && IsPriceActive; price/ratio errors not discarded", floor)
+	}
 	ops := p.operationalFns()
 	priceFns := map[string]bool{"CalcAssetPrice": true, "GetLatestPrice": true, "CalculateCollateralizationRatio": true, "GetAmountOfOtherToken": true, "GetPriceForAsset": true, "VerifyCollaterlizationRatio": true, "VerifyCollateralizationRatio": true}
 	var fns []*ssa.Function
@@ -596,7 +605,7 @@ func priceDiscipline(p *Prog, r *Report, rule string, modules map[string]bool, f
 				}
 				// (b) discarded errors
 				c, ok := in.(*ssa.Call)
-				if !ok {
+				if !ok || readsOnly {
 					continue
 				}
 				name := ""
@@ -705,7 +714,17 @@ func twaGuards(p *Prog, calls_ []*ssa.Call) []*GuardSpec {
 			if a.IsCmp {
 				return false, false
 			}
-			if boolIsField(a.Val, "TimeWeightedAverage", "IsPriceActive", true) {
+			// of the very record whose price is read (not of another asset's record)
+			sameRecord := func(base ssa.Value) bool {
+				os := p.Origins(base)
+				for _, o := range os {
+					if !(o.Kind == "call" && isCall(o.Call)) {
+						return false
+					}
+				}
+				return len(os) > 0
+			}
+			if boolIsFieldOf(a.Val, "TimeWeightedAverage", "IsPriceActive", true, sameRecord) {
 				if a.Neg {
 					return false, true
 				}
